@@ -18,7 +18,7 @@ TASKS = {
     "ProposalResetsParts": (None, "ProposalResetsParts", "CommitPartsMatch", "CorridorStuck", 45, "C03"),
 }
 # tag -> (powers, index of the faulty validator in the proposer rotation)
-CONFIGS = {"eq1": ([1, 1, 1, 1], 1), "w1": ([2, 2, 1, 1], 1)}
+CONFIGS = {"eq1": ([1, 1, 1, 1], 1)}     # the faulty validator must hold < 1/3 of the power
 
 
 def main():
